@@ -67,6 +67,8 @@ type AssertionSpec struct {
 	AuthnInstant                            string
 	SessionNOA                              string
 	NoSubject, NoConf, NoData, NoConditions bool
+	XsiTypes        bool // AttributeValue elements carry xsi:type="xs:string" (xmlns:xs / xmlns:xsi in scope)
+	CommentInValues bool // the IdP itself splits attribute values by a comment node (before signing)
 	UseCDATA                                bool // serialise NameID / attribute values as CDATA sections (the IdP signs that layout)
 	// bookkeeping
 	Relocated     bool      // an attacker edit moved the genuine element away from being a direct child of the root
@@ -131,6 +133,8 @@ func (g *xgen) okAssertionSpec(i int) *AssertionSpec {
 		a.NameID = sp(g.value())
 	}
 	a.UseCDATA = g.r.Intn(5) == 0
+	a.XsiTypes = g.r.Intn(3) == 0
+	a.CommentInValues = g.r.Intn(5) == 0
 	return a
 }
 
@@ -168,7 +172,7 @@ func cdataLayout(raw []byte, rs *ResponseSpec) ([]byte, bool) {
 	s := string(raw)
 	changed := false
 	for _, a := range rs.Assertions {
-		if !a.UseCDATA || a.Encrypted != nil {
+		if !a.UseCDATA || a.Encrypted != nil || a.CommentInValues {
 			continue
 		}
 		var vals []string
@@ -198,6 +202,9 @@ func buildAssertion(st nsStyle, a *AssertionSpec) *etree.Element {
 	if st.PP != "" || st.AP != "" {
 		declare(el, st.PP, nsProtocol) // every in-scope declaration is repeated here so that inclusive c14n is context-free
 	}
+	// namespaces real IdPs declare for typed attribute values (used only inside attribute VALUES, i.e. not visibly utilised)
+	el.CreateAttr("xmlns:xs", "http://www.w3.org/2001/XMLSchema")
+	el.CreateAttr("xmlns:xsi", "http://www.w3.org/2001/XMLSchema-instance")
 	el.CreateAttr("ID", a.ID)
 	el.CreateAttr("Version", "2.0")
 	el.CreateAttr("IssueInstant", "2024-05-17T10:29:00Z")
@@ -272,7 +279,17 @@ func buildAssertion(st nsStyle, a *AssertionSpec) *etree.Element {
 				ae.CreateAttr("NameFormat", at.Format)
 			}
 			for _, v := range at.Values {
-				setTextMaybeCDATA(ae.CreateElement(st.a("AttributeValue")), v, a.UseCDATA)
+				av := ae.CreateElement(st.a("AttributeValue"))
+				if a.XsiTypes {
+					av.CreateAttr("xsi:type", "xs:string")
+				}
+				if a.CommentInValues && len(v) >= 2 && isRuneStart(v, len(v)/2) {
+					av.CreateText(v[:len(v)/2])
+					av.CreateComment(" split by the IdP ")
+					av.CreateText(v[len(v)/2:])
+				} else {
+					setTextMaybeCDATA(av, v, a.UseCDATA)
+				}
 			}
 		}
 	}
@@ -288,6 +305,10 @@ func buildMessage(rs *ResponseSpec) *etree.Element {
 		if st.AP != st.PP {
 			declare(root, st.AP, nsAssertion)
 		}
+	}
+	if rs.Kind == "Response" {
+		root.CreateAttr("xmlns:xs", "http://www.w3.org/2001/XMLSchema")
+		root.CreateAttr("xmlns:xsi", "http://www.w3.org/2001/XMLSchema-instance")
 	}
 	if rs.ID != "\x00" {
 		root.CreateAttr("ID", rs.ID)
